@@ -21,5 +21,7 @@ func init() {
 		rules.ContainmentSeesNamedPorts(p, r, "C07-d")
 		rules.SelectorsFullMatchTable(p, r, "C07-e")
 		rules.SharedSets(p, r, "C07-f")
+		rules.KeyAndMatcherNormaliseAlike(p, r, "C07-b-norm")
+		rules.RepresentativePairExclusionTable(p, r, "C07-g")
 	})
 }
